@@ -117,7 +117,10 @@ impl Ctx {
             let _ = std::fs::write(&p, txt);
             p.to_string_lossy().into_owned() } };
         eprintln!("[{}:{}] violation: {}", self.id, sub, msg);
-        self.violations.lock().unwrap().push((path, msg.to_string()));
+        let mut v = self.violations.lock().unwrap();
+        // one report per sub-check: several workers may hit the same defect
+        if existing.is_none() && v.iter().any(|(p, _)| p.contains(&format!("/{}-", sub))) { let _ = std::fs::remove_file(&path); return; }
+        v.push((path, msg.to_string()));
     }
 
     /// Returns true if the failure is a listed open finding (then it is not a violation).
